@@ -385,34 +385,12 @@ Section Build.
     rewrite (tab_correct c (Hcs_decl c Hc) x). tauto.
   Qed.
 
-  Lemma hints_check_ok c : hints_check p cs c = Ok tt.
-  Proof.
-    assert (Hh : forall k, hidden_of p k = []).
-    { intro k. unfold hidden_of. destruct (find_decl p k) as [d|] eqn:E; auto.
-      apply find_decl_In in E as [E _]; auto.
-      unfold wf_prog in Hwf. apply andb_true_iff in Hwf as [_ H]. rewrite forallb_forall in H.
-      specialize (H d E). destruct (d_hidden d); [reflexivity | discriminate]. }
-    unfold hints_check.
-    assert (U : unresolved p c = []).
-    { unfold unresolved. generalize (chain (length p) p c). intro ks.
-      induction ks as [|k ks IH]; cbn [flat_map]; auto. rewrite IH, app_nil_r, Hh.
-      generalize (own_fields p k). intro fs. induction fs as [|f fs IHf]; cbn [flat_map]; auto.
-      rewrite IHf, app_nil_r. generalize (leaf_names (f_ann f)). intro l.
-      induction l as [|n l IHl]; simpl; auto. }
-    rewrite U. reflexivity.
-  Qed.
-
   Lemma assoc_edges_ok : assoc_edges p cs = Ok assoc_list.
   Proof.
-    unfold assoc_edges, assoc_list. apply mconcat_ok. intros c Hc. unfold class_edges.
-    assert (G : mconcat (field_edge p cs c) (public_fields (tab p) c)
-                = Ok (flat_map (field_edges cs c) (public_fields (tab p) c))).
-    { apply mconcat_ok. intros x Hx.
-      apply public_fields_In in Hx as [_ [a [_ Hx]]]; auto.
-      apply declares_all in Hx. destruct Hparts as [_ [_ H]]. rewrite forallb_forall in H.
-      specialize (H x Hx). apply andb_true_iff in H as [H1 H2]. now apply field_edge_ok. }
-    destruct (public_fields (tab p) c) eqn:E; [reflexivity|].
-    rewrite hints_check_ok. exact G.
+    unfold assoc_edges, assoc_list. apply mconcat_ok. intros c Hc. apply mconcat_ok. intros x Hx.
+    apply public_fields_In in Hx as [_ [a [_ Hx]]]; auto.
+    apply declares_all in Hx. destruct Hparts as [_ [_ H]]. rewrite forallb_forall in H.
+    specialize (H x Hx). apply andb_true_iff in H as [H1 H2]. now apply field_edge_ok.
   Qed.
 
   Lemma build_eq : build p cs = Ok (mk_graph cs (inh_edges p cs ++ assoc_list)).
@@ -526,21 +504,19 @@ Proof.
   - intro e. now apply edges_spec.
 Qed.
 
-(* outside the fragment: two names visible under TYPE_CHECKING only, one of them not in the diagram.
-   C1 (module 1; cannot see C2, C3): a1 : Optional["C2"], a2 : List["C3"];  C2(C1);  C3.   Diagram [C1; C2]. *)
+(* regression (C17-c, repaired by 91db0c8): two names visible under TYPE_CHECKING only, one of them not in the diagram.
+   C1 (module 1; cannot see C2, C3): a1 : Optional["C2"], a2 : List["C3"];  C2(C1);  C3.   Diagram [C1; C2]:
+   the retry as it was gave up with NameError; the program is in the fragment now and construction succeeds. *)
 Definition two_unresolved_prog : prog :=
   [ Build_decl 2 DDataclass [] [Build_fdecl 5 false (Optional (Fwd 3)) true false; Build_fdecl 6 false (Cont KList (Fwd 4)) true false] [3; 4];
     Build_decl 3 DDataclass [2] [Build_fdecl 7 false (Builtin BInt) true false] [];
     Build_decl 4 DDataclass [] [Build_fdecl 8 false (Builtin BInt) true false] [] ]%positive.
-Lemma two_unresolved_refuted :
-  build two_unresolved_prog [2; 3]%positive = Raise NameError
-  /\ (exists e, In e (g_edges (spec_graph two_unresolved_prog [2; 3]%positive)) /\ e_kind e = EAssoc)
-  /\ (exists g, build two_unresolved_prog [2; 3; 4]%positive = Ok g).
-Proof.
-  split; [vm_compute; reflexivity|]. split.
-  - exists (mk_edge EAssoc 2 3 5)%positive. split; [vm_compute; auto | reflexivity].
-  - eexists. vm_compute. reflexivity.
-Qed.
+Lemma two_unresolved_regression :
+  old_retry two_unresolved_prog [2; 3]%positive 2%positive = Raise NameError
+  /\ wf_prog two_unresolved_prog = true /\ wf_classes two_unresolved_prog [2; 3]%positive = true
+  /\ build two_unresolved_prog [2; 3]%positive
+     = Ok (mk_graph [2; 3] [mk_edge EInh 2 3 1; mk_edge EAssoc 2 3 5; mk_edge EAssoc 3 3 5])%positive.
+Proof. repeat split; vm_compute; reflexivity. Qed.
 
 (* a program of the fragment, for non-vacuity: C1 { a1 : Optional["C2"] }, C2 { a2 : int }, C3(C1) {}, E1 enum *)
 Definition example_prog : prog :=
